@@ -51,6 +51,10 @@ class C16(Check):
             cfgs.append(Config('finite_n%d' % n, self.finite, {'n': n}))
         for lim in (1, 2):
             cfgs.append(Config('end_to_end_lim%d' % lim, self.end_to_end, {'lim': lim}, nonlinear=True))
+            # one sensor, window 1: the REAL statistics step hands the criterion whatever np.cov returns
+            # for a single variable (a 0-d array)
+            cfgs.append(Config('end_to_end_real_statistics_lim%d' % lim, self.end_to_end, {'lim': lim, 'real_stats': True},
+                               nonlinear=True))
         return cfgs
 
     def bic(self, c, T, K, n):
@@ -83,13 +87,16 @@ class C16(Check):
         want = z3.ToReal(pcnt) * core._const_real(math.log(T)) - 2 * rsum(ll)
         c.prove('bic_matches_definition', z3.And(R(res) == want, states.intact(st, fz)))
 
-    def end_to_end(self, c, lim):
+    def end_to_end(self, c, lim, real_stats=False):
         Rp = self.R
         K, P, n = 2, 4, 1
         data = stubs.sym_array(c, 'x', (P, n), writeable=False)
         pats = [[0, 0, 1, 1], [0, 1, 0, 1], [1, 1, 0, 0]]
         stubs.install_linalg(det=stubs.det_exact, slogdet=logdet.slogdet_stub)
-        ml = MainLoop(Rp, c, K, n, modes={'initial': 'summary', 'bic': 'real'}, spd=True,
+        modes = {'initial': 'summary', 'bic': 'real'}
+        if real_stats:
+            modes['statistics'] = 'real'
+        ml = MainLoop(Rp, c, K, n, modes=modes, spd=True,
                       label_hook=lambda r, T: list(pats[(r + 1) % 3]))
         ml.s_initial = lambda k, d: list(pats[0])
         with ml:
@@ -98,7 +105,7 @@ class C16(Check):
                               label_switching_cost=1.0)
         if not ok:
             return
-        c.notes.update({'kind': 'end_to_end', 'limit': lim})
+        c.notes.update({'kind': 'end_to_end', 'limit': lim, 'real_stats': real_stats})
         fitted = [t for t in ml.trace if t[1] == 'optimise'][-1][3]
         final = [t for t in ml.trace if t[1] == 'relabel'][-1][3]
         labs = [int(x) for x in final.point_labels]
@@ -106,7 +113,7 @@ class C16(Check):
         cnt, ll = [], []
         for k in range(K):
             Th = fitted.clusters[k].train_inverse
-            S = fitted.clusters[k].empirical_covariance
+            S = np.asarray(fitted.clusters[k].empirical_covariance).reshape(n, n)     # np.cov: 0-d for one variable
             cnt.append(z3.Sum([z3.If(z3.Or(R(Th[i, j]) > thr, R(Th[i, j]) < -thr), 1, 0)
                                for i in range(n) for j in range(n)]))
             tr = rsum([R(Th[i, j]) * R(S[j, i]) for i in range(n) for j in range(n)])
